@@ -66,6 +66,16 @@ var handPairs = []handPair{
 		new: map[string]string{"common.frugal": "namespace * common\n\nstruct Money {\n    1: i64 amount,\n    2: string currency,\n}\n", "billing.frugal": "namespace * billing\n\nstruct Invoice {\n    1: i64 id,\n}\n", "orders.frugal": "namespace * orders\n\ninclude \"common.frugal\"\n\nstruct Order {\n    1: i64 id,\n    2: common.Money price,\n}\n", "root.frugal": "namespace * root\n\ninclude \"billing.frugal\"\ninclude \"orders.frugal\"\n\nservice Shop {\n    orders.Order order(1: i64 id),\n    billing.Invoice invoice(1: i64 orderId),\n}\n"},
 	},
 	{
+		name: "literal segment and same-named prefix variable renamed together", sig: "C18:missed-breaking:change-prefix:literal-shares-variable-name", wantFail: true, root: "a.frugal",
+		old: map[string]string{"a.frugal": "scope Events prefix user.{user}.events {\n  Sent: string\n}\nscope Tenants prefix v1.tenant.{tenant} {\n  Sent: string\n}\n"},
+		new: map[string]string{"a.frugal": "scope Events prefix account.{account}.events {\n  Sent: string\n}\nscope Tenants prefix v1.tenant.{tenant} {\n  Sent: string\n}\n"},
+	},
+	{
+		name: "prefix variables renamed whose names occur inside literal segments", sig: "C18:false-alarm:rename-prefix-variable:variable-name-occurs-in-literal", wantFail: false, root: "a.frugal",
+		old: map[string]string{"a.frugal": "scope Orders prefix orders.{order} {\n  Sent: string\n}\nscope Feed prefix data.{at}.feed {\n  Sent: string\n}\n"},
+		new: map[string]string{"a.frugal": "scope Orders prefix orders.{orderId} {\n  Sent: string\n}\nscope Feed prefix data.{id}.feed {\n  Sent: string\n}\n"},
+	},
+	{
 		name: "last default field removed", sig: "C18:missed-breaking:remove-field", wantFail: true, root: "a.thrift",
 		old: map[string]string{"a.thrift": "struct S {\n  1: i32 a,\n  2: optional i32 b,\n  3: string c,\n}\n"},
 		new: map[string]string{"a.thrift": "struct S {\n  1: i32 a,\n  2: optional i32 b,\n}\n"},
